@@ -35,7 +35,7 @@ PROBES = ['forged-sender', 'unicast-to-well-known-name', 'unicast-to-unique-name
           'broadcast-to-two-holders', 'broadcast-no-holder', 'destination-also-holds-rule',
           'bus-call-while-rule-holder-matches', 'no-reply-flag-forwarded', 'big-endian-forwarded',
           'variant-in-forwarded-body', 'real-client-sender', 'new-peer-mid-run',
-          'name-owner-changed-mid-run', 'sender-holds-matching-rule']
+          'name-owner-changed-mid-run', 'sender-holds-matching-rule', 'bus-drained-then-reconnect']
 COMPONENTS = {
     'real': ['txdbus.bus.Bus (messageReceived, sendMessage, dbus_AddMatch, clientConnected/'
              'Disconnected)', 'txdbus.bus.BusProtocol (tracing subclass on rawDBusMessageReceived / '
@@ -412,7 +412,22 @@ def scenario(ctx):
             def op():
                 budget[0] -= 1
                 live = [n for n in order if peers[n]['alive']]
-                k = ds.weighted([12, 1, 0.7])
+                k = ds.weighted([12, 1, 0.7, 0.25])
+                if k == 3:
+                    # every peer leaves, then new ones arrive: unique names must still be fresh
+                    sim.probe('bus-drained-then-reconnect')
+                    sim.log('op', 'drain-all')
+                    for n in live:
+                        rec = peers[n]
+                        rec['alive'] = False
+                        if rec['kind'] == 'ref':
+                            rec['proto'].transport.loseConnection()
+                        else:
+                            rig.call(rec, rec['proto'].disconnect)
+                    rig.calm()
+                    for _ in range(1 + ds.choose(2)):
+                        connect()
+                    return
                 if k == 1 and len(live) > 2:
                     n = live[ds.choose(len(live))]
                     rec = peers[n]
